@@ -197,6 +197,19 @@ CLAIMED['C06'] = dict(
   design_ref='DESIGN.md section 3 C06',
   note='In-order exactly-once delivery of each fragment is delegated to the data link connection (C05). Trusted: SNEP 1.0 codes tabulated in the rule.',
   technique='fragment partition + handshake ordering by CFG dominance + header format agreement (ast)')
+CLAIMED['C20'] = dict(
+  category='other',
+  text='Decides the control/data-flow skeleton of authentication: read_with_mac returns data only on the branch where the MAC over exactly that '
+       'data verified under the session key/IV; session key, IV, authenticated flag and the switch to MAC-protected reads are assigned only '
+       'behind the verified tag MAC, with the flag reset first and a fresh random challenge; Lite-S sets the flag only after the MAC-protected '
+       'read-back; NTAG21x/Ultralight C return the comparison with the expected acknowledgement; provisioning and verification use the same '
+       'key slices, defaults and byte order; the password->key expression of protect and authenticate is evaluated by the checker on several '
+       'password values and must agree; write/read MAC inputs (flipped key, write counter, IV) are checked for agreement. Cryptographic '
+       'soundness and value-level tamper detection are not decided.',
+  design_ref='DESIGN.md section 3 C20',
+  note='Known finding: FeliCa Lite-S protect derives the key with .encode("ascii"), authenticate does not (suite asserts str passwords for protect). '
+       'Trusted: pyDes, vendor authentication procedures.',
+  technique='authorisation dominance on the CFG + sibling expression agreement by finite evaluation (ast)')
 NA_REASON = {}
 def main():
     checks = []
